@@ -416,6 +416,7 @@ type RefProgram struct {
 	Path  []string          `json:"path,omitempty"`       // sys.path entries relative to the scenario root
 	Mode  string            `json:"mode,omitempty"`       // "" exec | "compile" (only report whether it compiles)
 	After *string           `json:"after,omitempty"`      // second program run in the same namespace afterwards
+	Dirs  []string          `json:"dirs,omitempty"`       // empty directories to create (relative paths)
 	Late  map[string]string `json:"late_files,omitempty"` // files that appear only when the program calls fs_add(path)
 }
 
